@@ -514,6 +514,25 @@ fn run_job(scen: &Value, names: &[String], job: &Value, budget: usize, want_ops:
         });
     }
     let keys: Vec<String> = scen["obj"].get("keys").and_then(|x| x.as_array()).map(|a| a.iter().map(|x| x.as_str().unwrap().to_owned()).collect()).unwrap_or_default();
+    // "pre": calls made by the controller before any thread starts (initial population); recorded as a strictly
+    // ordered prefix of the history with negative time stamps
+    let pre: Vec<Value> = scen.get("pre").and_then(|x| x.as_array()).cloned().unwrap_or_default();
+    if !pre.is_empty() {
+        let mut ploc = Locals::default();
+        let n = pre.len() as i64;
+        let mut recs = vec![];
+        for (k, op) in pre.iter().enumerate() {
+            let res = exec(&obj, &mut ploc, op);
+            let mut rec = op.as_object().unwrap().clone();
+            rec.insert("t".into(), json!("pre"));
+            rec.insert("i".into(), json!(k + 1));
+            rec.insert("inv".into(), json!(-2 * (n - k as i64) - 1));
+            rec.insert("ret".into(), json!(-2 * (n - k as i64)));
+            rec.insert("res".into(), res);
+            recs.push(Value::Object(rec));
+        }
+        sched.c.calls.lock().unwrap().extend(recs);
+    }
     let mode = job["mode"].as_str().unwrap_or("choices");
     let mut out = Map::new();
     out.insert("id".into(), job["id"].clone());
